@@ -1,2 +1,296 @@
+/-
+  AITB.Props.C13 — "Coordination-graph maximisers return what they claim".
+
+  Theorems about AITB.Model.VE / VETable.  Everything is for ALL rule sets (any number of
+  agents and actions, overlapping / nested / duplicate / disconnected factors, agents in no
+  rule, negative payoffs, absent entries = 0) and for EVERY elimination order.
+-/
+import Mathlib.Algebra.Order.Field.Rat
+import Mathlib.Tactic.Linarith
+import Mathlib.Tactic.Ring
 import AITB.Model.VE
 import AITB.Model.VETable
+import AITB.Props.C14
+
+namespace AITB.VE
+open AITB.Factored
+
+/-! ## first-maximum scan -/
+
+theorem argmaxTo_le (n : Nat) (f : Nat → Rat) : argmaxTo n f ≤ n := by
+  induction n with
+  | zero => simp [argmaxTo]
+  | succ n ih =>
+    simp only [argmaxTo]
+    split
+    · exact Nat.le_refl _
+    · omega
+
+theorem maxTo_succ (n : Nat) (f : Nat → Rat) :
+    maxTo (n+1) f = if maxTo n f < f (n+1) then f (n+1) else maxTo n f := by
+  simp only [maxTo, argmaxTo]
+  by_cases h : f (argmaxTo n f) < f (n + 1) <;> simp [h]
+
+theorem maxTo_ge (n : Nat) (f : Nat → Rat) : ∀ i, i ≤ n → f i ≤ maxTo n f := by
+  induction n with
+  | zero => intro i hi; have : i = 0 := by omega
+            subst this; simp [maxTo, argmaxTo]
+  | succ n ih =>
+    intro i hi
+    rw [maxTo_succ]
+    split
+    · rename_i h
+      rcases Nat.lt_or_ge i (n+1) with h1 | h1
+      · exact le_of_lt (lt_of_le_of_lt (ih i (by omega)) h)
+      · have : i = n+1 := by omega
+        subst this; exact le_refl _
+    · rename_i h
+      rcases Nat.lt_or_ge i (n+1) with h1 | h1
+      · exact ih i (by omega)
+      · have : i = n+1 := by omega
+        subst this; exact not_lt.mp h
+
+/-- the maximum is attained at `argmaxTo` (by definition), which is in range -/
+theorem maxTo_attained (n : Nat) (f : Nat → Rat) : maxTo n f = f (argmaxTo n f) := rfl
+
+/-! ## assignments -/
+
+theorem upd_self (x : Asg) (v : Nat) : upd x v (x v) = x := by
+  funext i; unfold upd; split <;> simp_all
+
+theorem upd_same (x : Asg) (v k : Nat) : upd x v k v = k := by simp [upd]
+theorem upd_other (x : Asg) (v k u : Nat) (h : u ≠ v) : upd x v k u = x u := by simp [upd, h]
+
+/-! ## semantic factors -/
+
+/-- a factor depends only on the agents in its scope -/
+def Factor.WF (φ : Factor) : Prop := ∀ x y : Asg, (∀ v ∈ φ.scope, x v = y v) → φ.f x = φ.f y
+
+def AllWF (fs : List Factor) : Prop := ∀ φ ∈ fs, φ.WF
+
+theorem total_congr (fs : List Factor) (x y : Asg) (hwf : AllWF fs)
+    (h : ∀ φ ∈ fs, ∀ u ∈ φ.scope, x u = y u) : total fs x = total fs y := by
+  induction fs with
+  | nil => rfl
+  | cons φ fs ih =>
+    simp only [total]
+    rw [hwf φ (List.mem_cons_self ..) x y (h φ (List.mem_cons_self ..))]
+    rw [ih (fun ψ hψ => hwf ψ (List.mem_cons_of_mem _ hψ)) (fun ψ hψ => h ψ (List.mem_cons_of_mem _ hψ))]
+
+theorem total_split (v : Nat) (fs : List Factor) (x : Asg) :
+    total fs x = total (deps v fs) x + total (rest v fs) x := by
+  induction fs with
+  | nil => simp [deps, rest, total]
+  | cons φ fs ih =>
+    by_cases h : v ∈ φ.scope
+    · simp only [deps, rest, List.filter, h, decide_true, Bool.not_true, total] at *
+      rw [ih]; ring
+    · simp only [deps, rest, List.filter, h, decide_false, Bool.not_false, total] at *
+      rw [ih]; ring
+
+theorem mem_deps {v : Nat} {fs : List Factor} {φ : Factor} : φ ∈ deps v fs ↔ φ ∈ fs ∧ v ∈ φ.scope := by
+  simp [deps, List.mem_filter]
+
+theorem mem_rest {v : Nat} {fs : List Factor} {φ : Factor} : φ ∈ rest v fs ↔ φ ∈ fs ∧ v ∉ φ.scope := by
+  simp [rest, List.mem_filter]
+
+theorem total_eliminate (dom : Nat → Nat) (v : Nat) (fs : List Factor) (x : Asg) :
+    total (eliminate dom v fs) x
+      = maxTo (dom v) (fun k => total (deps v fs) (upd x v k)) + total (rest v fs) x := rfl
+
+/-- the part of the graph not adjacent to `v` does not see `v`'s action -/
+theorem total_rest_upd (v k : Nat) (fs : List Factor) (x : Asg) (hwf : AllWF fs) :
+    total (rest v fs) (upd x v k) = total (rest v fs) x := by
+  apply total_congr
+  · intro φ hφ; exact hwf φ (mem_rest.mp hφ).1
+  · intro φ hφ u hu
+    have : u ≠ v := fun e => (mem_rest.mp hφ).2 (e ▸ hu)
+    exact upd_other x v k u this
+
+/-- I1: eliminating `v` never decreases the total at an assignment whose `v`-action is in range -/
+theorem eliminate_ge (dom : Nat → Nat) (v : Nat) (fs : List Factor) (x : Asg) (hx : x v ≤ dom v) :
+    total fs x ≤ total (eliminate dom v fs) x := by
+  rw [total_eliminate, total_split v fs x]
+  have := maxTo_ge (dom v) (fun k => total (deps v fs) (upd x v k)) (x v) hx
+  simp only [upd_self] at this
+  linarith
+
+/-- I2: the recorded best response turns the new total back into the old one -/
+theorem eliminate_attained (dom : Nat → Nat) (v : Nat) (fs : List Factor) (x : Asg) (hwf : AllWF fs) :
+    total fs (upd x v (bestResp dom v fs x)) = total (eliminate dom v fs) x := by
+  rw [total_eliminate, total_split v fs (upd x v _), total_rest_upd v _ fs x hwf]
+  rfl
+
+/-! ### well-formedness and scopes are preserved -/
+
+theorem elimFactor_WF (dom : Nat → Nat) (v : Nat) (dep : List Factor) (hwf : AllWF dep) :
+    (elimFactor dom v dep).WF := by
+  intro x y hxy
+  simp only [elimFactor]
+  have : (fun k => total dep (upd x v k)) = (fun k => total dep (upd y v k)) := by
+    funext k
+    apply total_congr dep _ _ hwf
+    intro φ hφ u hu
+    by_cases huv : u = v
+    · subst huv; simp [upd]
+    · rw [upd_other _ _ _ _ huv, upd_other _ _ _ _ huv]
+      apply hxy
+      simp only [elimFactor, List.mem_filter, List.mem_flatMap]
+      exact ⟨⟨φ, hφ, hu⟩, by simpa using huv⟩
+  rw [this]
+
+theorem eliminate_WF (dom : Nat → Nat) (v : Nat) (fs : List Factor) (hwf : AllWF fs) :
+    AllWF (eliminate dom v fs) := by
+  intro φ hφ
+  simp only [eliminate, List.mem_cons] at hφ
+  rcases hφ with h | h
+  · subst h
+    exact elimFactor_WF dom v _ (fun ψ hψ => hwf ψ (mem_deps.mp hψ).1)
+  · exact hwf φ (mem_rest.mp h).1
+
+/-- after eliminating `v` no scope mentions `v`, and no new agent appears in any scope -/
+theorem eliminate_scope (dom : Nat → Nat) (v : Nat) (fs : List Factor) :
+    ∀ φ ∈ eliminate dom v fs, ∀ u ∈ φ.scope, u ≠ v ∧ ∃ ψ ∈ fs, u ∈ ψ.scope := by
+  intro φ hφ u hu
+  simp only [eliminate, List.mem_cons] at hφ
+  rcases hφ with h | h
+  · subst h
+    simp only [elimFactor, List.mem_filter, List.mem_flatMap] at hu
+    obtain ⟨⟨ψ, hψ, huψ⟩, hne⟩ := hu
+    exact ⟨by simpa using hne, ψ, (mem_deps.mp hψ).1, huψ⟩
+  · have := mem_rest.mp h
+    exact ⟨fun e => this.2 (e ▸ hu), φ, this.1, hu⟩
+
+theorem elimAll_WF (dom : Nat → Nat) : ∀ (order : List Nat) (fs : List Factor), AllWF fs → AllWF (elimAll dom order fs)
+  | [], _, h => h
+  | v :: vs, fs, h => elimAll_WF dom vs _ (eliminate_WF dom v fs h)
+
+theorem elimAll_scope (dom : Nat → Nat) : ∀ (order : List Nat) (fs : List Factor),
+    ∀ φ ∈ elimAll dom order fs, ∀ u ∈ φ.scope, u ∉ order ∧ ∃ ψ ∈ fs, u ∈ ψ.scope
+  | [], fs, φ, hφ, u, hu => ⟨by simp, φ, hφ, hu⟩
+  | v :: vs, fs, φ, hφ, u, hu => by
+    obtain ⟨h1, ψ, hψ, huψ⟩ := elimAll_scope dom vs (eliminate dom v fs) φ hφ u hu
+    obtain ⟨h2, χ, hχ, huχ⟩ := eliminate_scope dom v fs ψ hψ u huψ
+    exact ⟨by simp [h1, h2], χ, hχ, huχ⟩
+
+/-- upper bound: the eliminated graph dominates every in-range joint action (any order) -/
+theorem elimAll_ge (dom : Nat → Nat) : ∀ (order : List Nat) (fs : List Factor) (x : Asg),
+    (∀ v ∈ order, x v ≤ dom v) → total fs x ≤ total (elimAll dom order fs) x
+  | [], _, _, _ => le_refl _
+  | v :: vs, fs, x, hx =>
+    le_trans (eliminate_ge dom v fs x (hx v (List.mem_cons_self ..)))
+      (elimAll_ge dom vs _ x (fun u hu => hx u (List.mem_cons_of_mem _ hu)))
+
+/-- attained: back-substitution of the recorded best responses reaches the eliminated total -/
+theorem solve_attained (dom : Nat → Nat) : ∀ (order : List Nat) (fs : List Factor), AllWF fs →
+    total fs (asgT (solve dom order fs)) = total (elimAll dom order fs) (asgT (solve dom order fs))
+  | [], _, _ => rfl
+  | v :: vs, fs, hwf => by
+    have hwf' := eliminate_WF dom v fs hwf
+    have ih := solve_attained dom vs (eliminate dom v fs) hwf'
+    simp only [solve, asgT, elimAll]
+    rw [eliminate_attained dom v fs _ hwf, ih]
+    apply total_congr _ _ _ (elimAll_WF dom vs _ hwf')
+    intro φ hφ u hu
+    obtain ⟨_, ψ, hψ, huψ⟩ := elimAll_scope dom vs _ φ hφ u hu
+    have hne := (eliminate_scope dom v fs ψ hψ u huψ).1
+    exact (upd_other _ _ _ _ hne).symm
+
+/-- the recovered joint action is in range for every agent -/
+theorem solve_range (dom : Nat → Nat) : ∀ (order : List Nat) (fs : List Factor) (u : Nat),
+    asgT (solve dom order fs) u ≤ dom u
+  | [], _, u => by simp [solve, asgT]
+  | v :: vs, fs, u => by
+    simp only [solve, asgT]
+    by_cases h : u = v
+    · subst h; rw [upd_same]; exact argmaxTo_le _ _
+    · rw [upd_other _ _ _ _ h]; exact solve_range dom vs _ u
+
+/-- once every agent that occurs in a scope has been eliminated, what is left is constant -/
+theorem elimAll_const (dom : Nat → Nat) (order : List Nat) (fs : List Factor) (hwf : AllWF fs)
+    (hcov : ∀ ψ ∈ fs, ∀ u ∈ ψ.scope, u ∈ order) (x y : Asg) :
+    total (elimAll dom order fs) x = total (elimAll dom order fs) y := by
+  apply total_congr _ _ _ (elimAll_WF dom order fs hwf)
+  intro φ hφ u hu
+  obtain ⟨h1, ψ, hψ, huψ⟩ := elimAll_scope dom order fs φ hφ u hu
+  exact absurd (hcov ψ hψ u huψ) h1
+
+/-- **Semantic VE is exact, for every elimination order.**  The action read off the tags is in
+    range, no in-range joint action has a larger total, and the reported value (sum of the final
+    constant factors) is the total of that action. -/
+theorem ve_correct_sem (dom : Nat → Nat) (order : List Nat) (fs : List Factor) (hwf : AllWF fs)
+    (hcov : ∀ ψ ∈ fs, ∀ u ∈ ψ.scope, u ∈ order) :
+    (∀ u, asgT (solve dom order fs) u ≤ dom u) ∧
+    (∀ x : Asg, (∀ u ∈ order, x u ≤ dom u) → total fs x ≤ total fs (asgT (solve dom order fs))) ∧
+    total (elimAll dom order fs) zeroAsg = total fs (asgT (solve dom order fs)) := by
+  refine ⟨solve_range dom order fs, ?_, ?_⟩
+  · intro x hx
+    calc total fs x ≤ total (elimAll dom order fs) x := elimAll_ge dom order fs x hx
+      _ = total (elimAll dom order fs) (asgT (solve dom order fs)) := elimAll_const dom order fs hwf hcov _ _
+      _ = total fs (asgT (solve dom order fs)) := (solve_attained dom order fs hwf).symm
+  · rw [solve_attained dom order fs hwf]
+    exact elimAll_const dom order fs hwf hcov _ _
+
+/-! ## rules as factors -/
+
+theorem matchKV_congr : ∀ (ks vs : List Nat) (x y : Asg), (∀ k ∈ ks, x k = y k) → matchKV ks vs x = matchKV ks vs y
+  | [], _, _, _, _ => by simp [matchKV]
+  | _ :: _, [], _, _, _ => by simp [matchKV]
+  | k :: ks, v :: vs, x, y, h => by
+    simp only [matchKV]
+    rw [h k (List.mem_cons_self ..), matchKV_congr ks vs x y (fun k' hk' => h k' (List.mem_cons_of_mem _ hk'))]
+
+theorem ofRule_WF (r : Rule) : (ofRule r).WF := by
+  intro x y h
+  simp only [ofRule, Rule.eval] at *
+  rw [matchKV_congr r.keys r.vals x y h]
+
+theorem rules_WF (rules : List Rule) : AllWF (rules.map ofRule) := by
+  intro φ hφ
+  obtain ⟨r, _, rfl⟩ := List.mem_map.mp hφ
+  exact ofRule_WF r
+
+theorem payoff_eq_total : ∀ (rules : List Rule) (x : Asg), payoff rules x = total (rules.map ofRule) x
+  | [], _ => rfl
+  | r :: rs, x => by simp only [payoff, List.map, total, ofRule]; rw [payoff_eq_total rs x]
+
+/-- in-range joint actions of the space `A` -/
+def InRange (A : List Nat) (x : Asg) : Prop := ∀ u, u < A.length → x u < A.getD u 0
+
+/-- **`ve_correct`** — VariableElimination on ANY rule set and for ANY elimination order that
+    covers the agents named in the rules: the returned joint action is in range, its payoff is
+    the maximum over all in-range joint actions, and the reported value is exactly its payoff. -/
+theorem ve_correct (A : List Nat) (order : List Nat) (rules : List Rule)
+    (hA : ∀ u, u < A.length → 0 < A.getD u 0)
+    (horder : ∀ u ∈ order, u < A.length)
+    (hcov : ∀ r ∈ rules, ∀ k ∈ r.keys, k ∈ order) :
+    InRange A (veAction A order rules) ∧
+    (∀ x : Asg, InRange A x → payoff rules x ≤ payoff rules (veAction A order rules)) ∧
+    veValue A order rules = payoff rules (veAction A order rules) := by
+  have hcov' : ∀ ψ ∈ rules.map ofRule, ∀ u ∈ ψ.scope, u ∈ order := by
+    intro ψ hψ u hu
+    obtain ⟨r, hr, rfl⟩ := List.mem_map.mp hψ
+    exact hcov r hr u hu
+  obtain ⟨h1, h2, h3⟩ := ve_correct_sem (domOf A) order (rules.map ofRule) (rules_WF rules) hcov'
+  have hdom : ∀ u, u < A.length → domOf A u = A.getD u 0 - 1 := by
+    intro u hu
+    simp [domOf, List.getD_eq_getElem?_getD, List.getElem?_eq_getElem hu]
+  refine ⟨?_, ?_, ?_⟩
+  · intro u hu
+    have := h1 u
+    rw [hdom u hu] at this
+    have := hA u hu
+    unfold veAction; omega
+  · intro x hx
+    rw [payoff_eq_total, payoff_eq_total]
+    apply h2
+    intro u hu
+    have hu' := horder u hu
+    rw [hdom u hu']
+    have := hx u hu'
+    omega
+  · unfold veValue veAction
+    rw [payoff_eq_total]
+    exact h3
+
+end AITB.VE
